@@ -1085,7 +1085,7 @@ def gen_c(d, opts=None, name=None):
             g.include_line()
         g.blank()
         g.tag("section:include")
-    if d.bool(0.5):
+    if d.bool(0.5) or "define" in opts.get("force", ()):
         for _ in range(d.int(1, 3)):
             g.define_line()
         g.blank()
@@ -1094,7 +1094,7 @@ def gen_c(d, opts=None, name=None):
         g.comment_lines()
         if d.bool():
             g.blank()
-    if d.bool(0.35):
+    if d.bool(0.35) or "global" in opts.get("force", ()):
         g.global_lines(d.int(1, 3))
         g.blank()
         g.tag("section:global")
